@@ -372,12 +372,18 @@ def topSort (g : List (Nat × List Nat)) (keys : List Nat) : Res (List Nat) :=
   | ok res => if res.length < g.length then err else ok res
   | r => r
 
+/-- `sorted.into_iter().map(|j| (row_for(j).unwrap(), j))` -/
+def attachRows (S : Pivs) : List Nat → Res (List (Nat × Nat))
+  | [] => ok []
+  | j :: js =>
+    match rowFor S j with
+    | none => panic
+    | some i => do let r ← attachRows S js; ok ((i, j) :: r)
+
 /-- `PivotFinder::result` in the internal orientation (`keys`: hash-map iteration order) -/
 def result (s : Str) (S : Pivs) (keys : List Nat) : Res (List (Nat × Nat)) :=
   match topSort (depGraph s S) keys with
-  | ok sorted => sorted.mapM (fun j => match rowFor S j with
-      | some i => ok (i, j)
-      | none => panic)
+  | ok sorted => attachRows S sorted
   | _ => panic
 
 /-! ### `perm_for_indices` -/
